@@ -165,6 +165,40 @@ pub fn main(args: &[String]) -> i32 {
             Ok(Err(_)) => (0, Vec::new(), None),
             Ok(Ok((keys, n_out))) => {
                 let mut evs = vec![json!({"g": "reset", "label": label, "objects_out": n_out})];
+                // the object list the difficulty calculation works on, after the mods that rewrite it (HoldOff, Invert, Random):
+                // hook event `mania_difficulty_objects`, projected to columns and time ranks
+                for (xi, extra) in ["", "IN", "HO", "IN,HO", "RD"].iter().enumerate() {
+                    if (i + xi) % 2 == 1 && !extra.is_empty() {
+                        continue;
+                    }
+                    let mut cfg = if k == 0 { crate::settings::Cfg::default() } else { crate::settings::Cfg::default().with_acronyms(&format!("{k}K")) };
+                    if *extra == "RD" {
+                        cfg.random_seed = Some(3 + i as i32);
+                    } else if !extra.is_empty() {
+                        let base = cfg.acronyms.clone().unwrap_or_default();
+                        cfg = cfg.with_acronyms(&if base.is_empty() { extra.to_string() } else { format!("{base},{extra}") });
+                    }
+                    rosu_pp::verif::trace::start();
+                    let r = guarded(|| rosu_pp::Difficulty::new().mods(cfg.game_mods()).calculate_for_mode::<rosu_pp::mania::Mania>(&map).is_ok());
+                    let raw2 = rosu_pp::verif::trace::take();
+                    if let Err(p) = r {
+                        return (0, Vec::new(), Some(json!({"what": "panic in the mania difficulty calculation", "label": format!("{label} + {extra}"), "panic": p, "osu_text": texts[i].1})));
+                    }
+                    for e in raw2.iter().filter(|e| e.contains("mania_difficulty_objects")) {
+                        let v: Value = serde_json::from_str(e).expect("hook event is JSON");
+                        let cs = v["cs"].as_f64().unwrap_or(1.0);
+                        let objs = v["objects"].as_array().cloned().unwrap_or_default();
+                        let mut times: Vec<f64> = objs.iter().flat_map(|o| [o[1].as_f64().unwrap_or(f64::NAN), o[2].as_f64().unwrap_or(f64::NAN)]).collect();
+                        let finite = times.iter().all(|t| t.is_finite());
+                        times.sort_by(|a, b| a.total_cmp(b));
+                        times.dedup();
+                        let rk = |t: f64| times.binary_search_by(|p| p.total_cmp(&t)).map(|x| x as i64).unwrap_or(-1);
+                        let cols: Vec<i64> = objs.iter().map(|o| (o[0].as_f64().unwrap_or(-1.0) / (512.0 / cs)).floor() as i64).collect();
+                        evs.push(json!({"g": "objects", "with": extra, "finite": finite, "cols": cols,
+                            "starts": objs.iter().map(|o| rk(o[1].as_f64().unwrap_or(f64::NAN))).collect::<Vec<_>>(),
+                            "ends": objs.iter().map(|o| rk(o[2].as_f64().unwrap_or(f64::NAN))).collect::<Vec<_>>()}));
+                    }
+                }
                 let mut notes = 0usize;
                 for e in &raw {
                     let v: Value = serde_json::from_str(e).expect("hook event is JSON");
